@@ -19,7 +19,11 @@ Small == {[lens |-> <<2>>, closed |-> FALSE, lc |-> 0], [lens |-> <<1, 1>>, clos
           [lens |-> <<3, 2>>, closed |-> TRUE, lc |-> 3], [lens |-> <<5>>, closed |-> FALSE, lc |-> 0]}
 \* subpaths that are a single point (MoveTo alone, or MoveTo, Close): they paint nothing and must not disturb the others
 Points == {[lens |-> <<>>, closed |-> FALSE, lc |-> 0], [lens |-> <<>>, closed |-> TRUE, lc |-> 0]}
+\* a second subpath that continues after the Close of the first without a MoveTo
+Cont(b) == [lens |-> b.lens, closed |-> b.closed, lc |-> b.lc, cont |-> TRUE]
+ClosedSmall == {a \in Small : a.closed}
 Init == /\ path \in (IF TWO THEN {<<a, b>> : a \in Small, b \in Subpaths \cup Points} \cup {<<a, b>> : a \in Subpaths \cup Points, b \in Small}
+                              \cup {<<a, Cont(b)>> : a \in ClosedSmall, b \in Subpaths}
                      ELSE {<<a>> : a \in Subpaths})
         /\ A \in Arrays /\ off \in (-OFFR)..OFFR
         /\ sp = 0 /\ k = 0 /\ pos = 0 /\ ds = [index |-> 0, on |-> TRUE, rem |-> 0]
